@@ -66,6 +66,19 @@ CHECKS = {
         note=EXPR_NOTE),
 }
 
+CHECKS["C03"] = dict(
+    level="exploration", design="5 C03",
+    technique="runtime monitoring: many short concurrent histories on the real stop sources checked against the "
+              "sequential stop-source rules (exactly-once, never after deregistration returned, inline when already "
+              "stopped, one first requester) with delay injection at hook sites, under ASan (freed callback storage) and clang TSan",
+    text="Registering, deregistering and requesting threads race on inplace_stop_source, fused_stop_source and "
+         "inplace_stop_token_adapter; every callback logs enter/exit, every API call logs call/return sequence "
+         "numbers; the oracle uses real-time precedence only in the sound direction. Callback storage is freed the "
+         "moment deregistration returns, so a late execution is also a heap-use-after-free. Evidence reports how "
+         "often each racy outcome class was observed.",
+    note="Trusted base: harness/src/stoptok.cpp, harness/include/vf/mt.hpp, g++ ASan, clang TSan. Schedules are "
+         "those produced by the OS under seeded perturbation; not exhaustive.")
+
 NOT_YET = "check not built yet (construction in progress, see DESIGN.md section 10)"
 
 
